@@ -1,5 +1,5 @@
 """Build matrix and reference preparation shared by C04 and C07 (DESIGN 7)."""
-import os, subprocess, sys
+import os, subprocess, sys, time
 from vlib import core
 
 HERE = os.path.dirname(os.path.abspath(__file__))
@@ -99,8 +99,10 @@ def run_matrix(rep, prop, tier, source, binprefix, extra_flags=()):
         except core.BuildError as e:
             errs = [l for l in str(e).splitlines() if 'error' in l]
             return name, None, (errs[0] if errs else str(e)[-300:]).strip()[:300]
+    t0 = time.time()
     with ThreadPoolExecutor(max_workers=core.NCPU) as ex:
         built = list(ex.map(build, cfgs))
+    rep.extra['compile_wall_s'] = round(time.time() - t0, 1)
     ran = 0
     for (name, cc, opt, var, level), (_, binary, err) in zip(cfgs, built):
         entry = {'name': name, 'cc': cc, 'opt': opt, 'flags': VARIANTS[var], 'level': level}
@@ -112,8 +114,10 @@ def run_matrix(rep, prop, tier, source, binprefix, extra_flags=()):
                 rep.harness_errors.append('the plain configuration %s does not compile: %s' % (name, err))
             continue
         bins[name] = binary
+        t0 = time.time()
         core.run_sharded(rep, binary, tier, config=name)
         entry['status'] = 'ran'
+        entry['wall_s'] = round(time.time() - t0, 1)
         rep.configs.append(entry)
         ran += 1
     if 0 == ran:
